@@ -1,84 +1,85 @@
-(* Props/C17TreeBuild.v - property C17: the CLI path of squash (squashed tree -> build_key_from_iter on a fresh graph -> export_key) prints the rendering of the squashed tree (TreeBuildFacts.v, TreeBuildSquash.v)
+(* Props/C17TreeBuild.v - property C17: the CLI path of squash (squashed tree -> builder -> export) prints the rendering of the squashed tree (TreeBuildFacts.v, TreeBuildSquash.v)
    Only statements, each closed by an `exact`, pinned by a `Check`, followed by `Print Assumptions`. *)
 From Coq Require Import ZArith Permutation List.
-From IweV Require Import Str Text Ast RelPath Arena ArenaWF ArenaFacts Project Library SectionsRefine HistoryText
-  Squash Rename TreeBuild TreeBuildFacts TreeBuildSquash.
+From IweV Require Import Str Text Ast RelPath Arena ArenaWF ArenaFacts Project Library SectionsRefine HistoryText Squash Rename TreeBuild TreeBuildFacts TreeBuildSquash.
 Local Open Scope string_scope.
 Local Open Scope list_scope.
 
 Theorem C17_squash_cli_roundtrip :
   forall (o : opts) (tables : list string) (key : string) (t : tree),
-       buildable t = true ->
-       inner_doc_free t = true ->
-       renorm_tree t = t ->
-       exists st : bst,
-         build_key_from_iter [] key t = Ok st /\
-         to_markdown o tables (cli_patch st key) key = Ok (tree_to_markdown o tables (key_parent key) t) /\
-         (heading_overflow t = false ->
-          to_markdown {| refs_extension := "" |} [] (cli_patch st key) key = squash_cli_text key t).
+         buildable t = true ->
+         inner_doc_free t = true ->
+         renorm_tree t = t ->
+         exists st : bst,
+           build_key_from_iter [] key t = Ok st /\
+           to_markdown o tables (cli_patch st key) key =
+           Ok (tree_to_markdown o tables (key_parent key) t) /\
+           to_markdown {| refs_extension := "" |} [] (cli_patch st key) key = squash_cli_text key t.
 Proof. exact TreeBuildFacts.squash_cli_roundtrip. Qed.
 Check C17_squash_cli_roundtrip :
   forall (o : opts) (tables : list string) (key : string) (t : tree),
-       buildable t = true ->
-       inner_doc_free t = true ->
-       renorm_tree t = t ->
-       exists st : bst,
-         build_key_from_iter [] key t = Ok st /\
-         to_markdown o tables (cli_patch st key) key = Ok (tree_to_markdown o tables (key_parent key) t) /\
-         (heading_overflow t = false ->
-          to_markdown {| refs_extension := "" |} [] (cli_patch st key) key = squash_cli_text key t).
+         buildable t = true ->
+         inner_doc_free t = true ->
+         renorm_tree t = t ->
+         exists st : bst,
+           build_key_from_iter [] key t = Ok st /\
+           to_markdown o tables (cli_patch st key) key =
+           Ok (tree_to_markdown o tables (key_parent key) t) /\
+           to_markdown {| refs_extension := "" |} [] (cli_patch st key) key = squash_cli_text key t.
 Print Assumptions C17_squash_cli_roundtrip.
 
 Theorem C17_squash_cli_roundtrip_refuted :
   exists (t : tree) (st : bst),
-         buildable t = true /\
-         inner_doc_free t = true /\
-         renorm_tree t <> t /\
-         t = T None (NDocument "k") [T None NBList [T None (NRef "r" "text" WikiLink) []]] /\
-         build_key_from_iter [] "k" t = Ok st /\
-         to_markdown {| refs_extension := "" |} [] (cli_patch st "k") "k" <>
-         Ok (tree_to_markdown {| refs_extension := "" |} [] "" t).
+           buildable t = true /\
+           inner_doc_free t = true /\
+           renorm_tree t <> t /\
+           t = T None (NDocument "k") [T None NBList [T None (NRef "r" "text" WikiLink) []]] /\
+           build_key_from_iter [] "k" t = Ok st /\
+           to_markdown {| refs_extension := "" |} [] (cli_patch st "k") "k" <>
+           Ok (tree_to_markdown {| refs_extension := "" |} [] "" t).
 Proof. exact TreeBuildFacts.squash_cli_roundtrip_refuted. Qed.
 Check C17_squash_cli_roundtrip_refuted :
   exists (t : tree) (st : bst),
-         buildable t = true /\
-         inner_doc_free t = true /\
-         renorm_tree t <> t /\
-         t = T None (NDocument "k") [T None NBList [T None (NRef "r" "text" WikiLink) []]] /\
-         build_key_from_iter [] "k" t = Ok st /\
-         to_markdown {| refs_extension := "" |} [] (cli_patch st "k") "k" <>
-         Ok (tree_to_markdown {| refs_extension := "" |} [] "" t).
+           buildable t = true /\
+           inner_doc_free t = true /\
+           renorm_tree t <> t /\
+           t = T None (NDocument "k") [T None NBList [T None (NRef "r" "text" WikiLink) []]] /\
+           build_key_from_iter [] "k" t = Ok st /\
+           to_markdown {| refs_extension := "" |} [] (cli_patch st "k") "k" <>
+           Ok (tree_to_markdown {| refs_extension := "" |} [] "" t).
 Print Assumptions C17_squash_cli_roundtrip_refuted.
 
 Theorem C17_squash_patchable :
   forall (g : graph) (key : string) (d : nat) (t : tree),
-       wf_b (gr_arena g) (gr_keys g) = true -> squash g key d = Ok t -> patchable t.
+         wf_b (gr_arena g) (gr_keys g) = true -> squash g key d = Ok t -> patchable t.
 Proof. exact TreeBuildSquash.squash_patchable. Qed.
 Check C17_squash_patchable :
   forall (g : graph) (key : string) (d : nat) (t : tree),
-       wf_b (gr_arena g) (gr_keys g) = true -> squash g key d = Ok t -> patchable t.
+         wf_b (gr_arena g) (gr_keys g) = true -> squash g key d = Ok t -> patchable t.
 Print Assumptions C17_squash_patchable.
 
 Theorem C17_squash_cli_graph :
   forall (o : opts) (tables : list string) (g : graph) (key key' : string) (root d : nat),
-       wf_b (gr_arena g) (gr_keys g) = true ->
-       alookup key (gr_keys g) = Some root ->
-       exists (t : tree) (st : bst),
-         squash g key d = Ok t /\
-         build_key_from_iter [] key' t = Ok st /\
-         to_markdown o tables (cli_patch st key') key' = Ok (tree_to_markdown o tables (key_parent key') t) /\
-         (heading_overflow t = false ->
-          to_markdown {| refs_extension := "" |} [] (cli_patch st key') key' = squash_cli_text key' t).
+         wf_b (gr_arena g) (gr_keys g) = true ->
+         alookup key (gr_keys g) = Some root ->
+         exists (t : tree) (st : bst),
+           squash g key d = Ok t /\
+           build_key_from_iter [] key' t = Ok st /\
+           to_markdown o tables (cli_patch st key') key' =
+           Ok (tree_to_markdown o tables (key_parent key') t) /\
+           to_markdown {| refs_extension := "" |} [] (cli_patch st key') key' =
+           squash_cli_text key' t.
 Proof. exact TreeBuildSquash.squash_cli_graph. Qed.
 Check C17_squash_cli_graph :
   forall (o : opts) (tables : list string) (g : graph) (key key' : string) (root d : nat),
-       wf_b (gr_arena g) (gr_keys g) = true ->
-       alookup key (gr_keys g) = Some root ->
-       exists (t : tree) (st : bst),
-         squash g key d = Ok t /\
-         build_key_from_iter [] key' t = Ok st /\
-         to_markdown o tables (cli_patch st key') key' = Ok (tree_to_markdown o tables (key_parent key') t) /\
-         (heading_overflow t = false ->
-          to_markdown {| refs_extension := "" |} [] (cli_patch st key') key' = squash_cli_text key' t).
+         wf_b (gr_arena g) (gr_keys g) = true ->
+         alookup key (gr_keys g) = Some root ->
+         exists (t : tree) (st : bst),
+           squash g key d = Ok t /\
+           build_key_from_iter [] key' t = Ok st /\
+           to_markdown o tables (cli_patch st key') key' =
+           Ok (tree_to_markdown o tables (key_parent key') t) /\
+           to_markdown {| refs_extension := "" |} [] (cli_patch st key') key' =
+           squash_cli_text key' t.
 Print Assumptions C17_squash_cli_graph.
 
